@@ -535,8 +535,9 @@ func (generator *BuilderGenerator) FromAST(schemas Schemas) []Builder {
 
 	for _, schema := range schemas {
 		schema.Objects.Iterate(func(_ string, object Object) {
+			// a reference that can't be resolved (or a cycle of aliases) isn't a struct
 			resolvedType := schemas.ResolveToType(object.Type)
-			if !resolvedType.IsAnyOf(KindStruct, KindRef) {
+			if !resolvedType.IsStruct() {
 				return
 			}
 
